@@ -40,6 +40,28 @@ func VerifRuntimeTxWindow(height uint32, vmState string) (nonce, vub uint32, err
 	return tx.Nonce, tx.ValidUntilBlock, err
 }
 
+// VerifRuntimeTxWindowSeq builds ONE modifier with neoFSRuntimeTransactionModifier — as
+// syncNeoFSContract and updateNNSContract do before their loops — over a height source that
+// reports heights[0] while the modifier is constructed and heights[i] during the i-th application,
+// and applies it to len(heights) fresh transactions whose test invocations ended in the given VM
+// state. It returns what each application set.
+func VerifRuntimeTxWindowSeq(heights []uint32, vmState string) (nonces, vubs []uint32, errs []error) {
+	if len(heights) == 0 {
+		return
+	}
+	cur := heights[0]
+	m := neoFSRuntimeTransactionModifier(func() uint32 { return cur })
+	for _, h := range heights {
+		cur = h
+		var res result.Invoke
+		res.State = vmState
+		var tx transaction.Transaction
+		err := m(&res, &tx)
+		nonces, vubs, errs = append(nonces, tx.Nonce), append(vubs, tx.ValidUntilBlock), append(errs, err)
+	}
+	return
+}
+
 // VerifSharedTxData mirrors sharedTransactionData.
 type VerifSharedTxData struct {
 	Sender          util.Uint160
